@@ -179,6 +179,12 @@ pub struct ModelView<'a> {
     pub data: &'a StateMap,
     pub overlay: Option<&'a StateMap>,
     pub bad: &'a [(CA, Key, u32)],
+    /// the device leaves out keys it has no value for instead of answering with an empty
+    /// value (fault `Sparse`). What the statement then implies: a range that the set does not
+    /// touch at all (no proposal for that contract) is the device's answer as it is; for a
+    /// contract with proposals every key of the range has a value — the proposed one, or the
+    /// device's, or the empty value when the device has none.
+    pub sparse: bool,
 }
 
 impl StateRead for ModelView<'_> {
@@ -215,6 +221,7 @@ impl StateRead for ModelView<'_> {
                 }
             }
         }
+        let contract_touched = self.overlay.map(|o| o.keys().any(|(oc, _)| *oc == c)).unwrap_or(false);
         for _ in 0..num_values {
             let v = self
                 .overlay
@@ -227,6 +234,9 @@ impl StateRead for ModelView<'_> {
                 Some(n) => k = n,
                 None => break,
             }
+        }
+        if self.sparse && !contract_touched {
+            out.retain(|v| !v.is_empty());
         }
         Ok(out)
     }
@@ -506,11 +516,13 @@ pub fn two_pass(w: &Workload, m: &Mat) -> ModelOut {
 fn two_pass_inner(w: &Workload, m: &Mat) -> ModelOut {
     let data = w.state_map();
     let bad = bad_keys(&w.faults);
+    let sparse = w.faults.iter().any(|f| matches!(f, Fault::Sparse));
     let empty = StateMap::new();
     let pre = ModelView {
         data: &data,
         overlay: None,
         bad: &bad,
+        sparse,
     };
     let parsed: Vec<Option<Vec<asm::Op>>> =
         w.programs.iter().map(|b| ops::from_bytes(b).ok()).collect();
@@ -546,6 +558,7 @@ fn two_pass_inner(w: &Workload, m: &Mat) -> ModelOut {
             data: &data,
             overlay: Some(&empty),
             bad: &bad,
+            sparse,
         };
         for si in 0..n_sols {
             let Some(g) = traces[si].graph.clone() else {
@@ -633,6 +646,7 @@ fn two_pass_inner(w: &Workload, m: &Mat) -> ModelOut {
             data: &data,
             overlay: Some(&overlay),
             bad: &bad,
+            sparse,
         };
         for si in 0..n_sols {
             let g = traces[si].graph.clone().expect("valid in pass 1");
